@@ -282,14 +282,18 @@ func r6C09(c *Ctx) {
 			continue
 		}
 		w := site.Args[wi]
+		// the weight may be absent unless every value it can take is a fresh pointer
 		mayNil := false
-		for _, lf := range Leaves(Forwarded(w), site.Instr.Block()) {
-			if k, ok := lf.V.(*ssa.Const); ok && k.IsNil() {
-				mayNil = true
+		for _, lf := range LeavesDeep(Forwarded(w), site.Instr.Block()) {
+			switch x := lf.V.(type) {
+			case *ssa.Alloc:
+				continue
+			case *ssa.Call:
+				if g := x.Call.StaticCallee(); g != nil && g.Pkg != nil && (strings.HasSuffix(g.Pkg.Pkg.Path(), "k8s.io/utils/pointer") || strings.HasSuffix(g.Pkg.Pkg.Path(), "k8s.io/utils/ptr")) {
+					continue
+				}
 			}
-			if _, ok := lf.V.(*ssa.Parameter); ok {
-				mayNil = true
-			}
+			mayNil = true
 		}
 		if !mayNil {
 			continue
@@ -490,20 +494,41 @@ func r6C01(c *Ctx) {
 	p := c.Prog
 	c.Rule("R1.12", "a step advance is persisted before anything acts on it", 2)
 	isWrite := apiWrites(p)
+	advances := func(f *ssa.Function) []*ssa.Store {
+		var out []*ssa.Store
+		for _, st := range FieldStores([]*ssa.Function{f}, "", "CurrentStepIndex") {
+			if bo, ok := st.Val.(*ssa.BinOp); ok && bo.Op == token.ADD {
+				out = append(out, st)
+			}
+		}
+		return out
+	}
 	for _, fn := range p.FuncsMatching("runCanary") {
 		if fn.Signature.Recv() == nil {
 			continue
 		}
 		n := 0
 		bad := ""
-		for _, st := range FieldStores([]*ssa.Function{fn}, "", "CurrentStepIndex") {
-			bo, ok := st.Val.(*ssa.BinOp)
-			if !ok || bo.Op != token.ADD {
-				continue
-			}
+		after := func(st *ssa.Store, from Point) {
 			n++
-			if reach, at := CanReach(PointAfter(st), isWrite, ReachOpts{}); reach {
+			if reach, at := CanReach(from, isWrite, ReachOpts{}); reach {
 				bad = "after the step index is advanced at " + p.Pos(st.Pos()) + " the same pass goes on to " + p.Pos(at.Pos()) + ", which writes to the cluster: the BatchRelease can be told to expose the next step's pods while the stored Rollout still shows the previous step (a lost status write or a crash leaves it that way)"
+			}
+		}
+		for _, st := range advances(fn) {
+			after(st, PointAfter(st))
+		}
+		// the advance may sit in a helper of the step machine: then neither the rest of the helper nor
+		// what follows its call may write
+		for _, ci := range AllCalls(fn) {
+			for _, g := range p.Callees(ci) {
+				if g == fn || g.Pkg != fn.Pkg || g.Blocks == nil || g.Name() == "runCanary" {
+					continue
+				}
+				for _, st := range advances(g) {
+					after(st, PointAfter(st))
+					after(st, PointAfter(ci))
+				}
 			}
 		}
 		c.Ob("R1.12", FuncName(fn)+"#advance-then-return", fn.Pos(), n > 0 && bad == "", "the pass that advances the step index makes no API write afterwards", bad+ifs(n == 0, "no CurrentStepIndex++ found"))
